@@ -526,13 +526,16 @@ Definition compute_alignment (R : registry) (ta : type_attrs) (regions : list re
                   | _ => reg_ptr R
                   end
         end in
-    let required := lcm_list (flat_aligns R regions) in
-    if negb (is_power_of_two alignment) then Err "alignment is not a power of two"
-    else if (alignment <? required)%N then Err "alignment is less than minimum required alignment"
-    else
-      do_ check_fields_aligned R regions 0%N;
-      if negb (size mod alignment =? 0)%N then Err "size is not a multiple of alignment"
-      else Ok alignment.
+    if negb (is_power_of_two alignment) then Err "alignment is not a power of two" else
+    match lcm_list (flat_aligns R regions) with
+    | None => Err "alignment is less than minimum required alignment"
+    | Some required =>
+      if (alignment <? required)%N then Err "alignment is less than minimum required alignment"
+      else
+        do_ check_fields_aligned R regions 0%N;
+        if negb (size mod alignment =? 0)%N then Err "size is not a multiple of alignment"
+        else Ok alignment
+    end.
 
 Definition type_build (st : sstate) (owner : path) (v : vis) (d : gtypedef) : attempt_result :=
   match path_parent owner with
